@@ -429,7 +429,7 @@ func CheckC09(h *History) []Violation {
 		return nil
 	}
 	sc := h.Scenario
-	all := append(append([]*OpResult(nil), h.Ops...), h.Epilogue...)
+	all := append(append(append([]*OpResult(nil), h.Ops...), h.Epilogue...), h.Callbacks...)
 	// every request of the concurrent phase is answered without 5xx
 	for _, o := range all {
 		if o.Skipped != "" || !o.Done {
@@ -517,6 +517,7 @@ func CheckC09(h *History) []Violation {
 		}
 	}
 	v.list = append(v.list, CheckReleaseRace(h, "C09")...)
+	v.list = append(v.list, CheckPromptDuringNotification(h, "C09")...)
 	// (5) acknowledged sessions stay usable
 	for _, o := range h.Epilogue {
 		if o.Skipped != "" {
